@@ -3499,6 +3499,7 @@ func (d *Data) handleSplit(ctx *datastore.VersionedCtx, w http.ResponseWriter, r
 		splitLabel, err = strconv.ParseUint(splitStr, 10, 64)
 		if err != nil {
 			server.BadRequest(w, r, "Bad parameter for 'splitlabel' query string (%q).  Must be uint64.\n", splitStr)
+			return
 		}
 	}
 	toLabel, err := d.SplitLabels(ctx.VersionID(), fromLabel, splitLabel, r.Body)
@@ -3540,6 +3541,7 @@ func (d *Data) handleSplitCoarse(ctx *datastore.VersionedCtx, w http.ResponseWri
 		splitLabel, err = strconv.ParseUint(splitStr, 10, 64)
 		if err != nil {
 			server.BadRequest(w, r, "Bad parameter for 'splitlabel' query string (%q).  Must be uint64.\n", splitStr)
+			return
 		}
 	}
 	toLabel, err := d.SplitCoarseLabels(ctx.VersionID(), fromLabel, splitLabel, r.Body)
